@@ -24,32 +24,34 @@ TABLES = ["FusedKeyRenamer"]
 LEVEL_TEXT = ("Lean 4 theorems over transliterations of the legacy passes (get_dependencies/keys_in_tasks, dask.core.subs, "
               "dask.optimization.cull) and of the task-spec passes of dask/_task_spec.py (cull, GraphNode.substitute, resolve_aliases, "
               "GraphNode.fuse/_execute_subgraph, fuse_linear_task_spec), each with its evaluator. PROVED FOR ALL INPUTS: legacy cull "
-              "(cull_keeps_requested, cull_subgraph, cull_closed, cull_deps_match, cull_preserves_eval; REFUTED w.r.t. dask.core.get: "
-              "cull_preserves_get_refuted, known findings); subs_preserves_eval, inline_step_preserves_solutions, "
-              "drop_unreferenced_preserves_values, dag_values_unique; task-spec cull (spec_cull_preserves_eval: requested keys kept, "
-              "sub-graph, dependency-closed, every kept key evaluates identically at every depth); substitute "
-              "(substitute_preserves_eval / substitute_eval: the substitution lemma through aliases, TaskRefs, nested tasks and kwargs; "
-              "substitute_inline_preserves_values, substitute_rename_preserves_values at graph level); resolve_aliases "
-              "(resolve_aliases_preserves_eval: the whole worklist loop, incl. the invariant that the never-updated `dependents` "
-              "mapping keeps giving the right number of dependents; requested keys stay, every remaining key keeps its value); the "
-              "name of fused tasks (fused_names_differ_on_top_key, renamer_collision_iff: two names share a key iff equal or both "
-              "over-long with equal prefix and equal digest of the FULL name, with the constants re-extracted from the source; "
-              "renamer_length_le). PROVED CHECKERS applied to every real output of the run (translation validation): fuseOK_sound "
-              "(inline, inline_functions, fuse_linear, fuse without renaming), fuseOKR_sound (the same with rename_keys=True/custom: "
-              "alias insertion, renamed references, deleted old keys), fuse_spec_preserves_eval (fuse_linear_task_spec and "
-              "GraphNode.fuse: an accepted output keeps all requested keys and every key present in both graphs computes the same "
-              "value, for every cache). PARTIAL: that fuse/fuse_linear/inline/fuse_linear_task_spec always produce outputs the "
-              "checkers accept is validated per run, not proved (fuse_linear_task_spec is transliterated and diffed at function level); "
-              "loop fuel of the task-spec cull/resolve_aliases models is validated (the model never answers 'fuel').")
+              "(cull_keeps_requested, cull_subgraph, cull_closed, cull_deps_match, cull_preserves_eval, and cull_preserves_get: the "
+              "same values under dask.core.get, i.e. conversion + execution, since the conversion agrees with the legacy semantics "
+              "-- C08); subs_preserves_eval, inline_step_preserves_solutions, drop_unreferenced_preserves_values, "
+              "dag_values_unique; task-spec cull (spec_cull_preserves_eval); substitute (substitute_preserves_eval / "
+              "substitute_eval through aliases, TaskRefs, nested tasks, kwargs; substitute_inline_preserves_values, "
+              "substitute_rename_preserves_values at graph level); resolve_aliases (resolve_aliases_preserves_eval: the whole "
+              "worklist loop incl. the invariant that the never-updated `dependents` mapping keeps giving the right number of "
+              "dependents); spec_cull_total (the cull loop always terminates within the model's fuel); fuse_linear_task_spec (fuse_linear_task_spec_preserves_eval: for every DAG with duplicate-free keys, "
+              "every requested-key list and EVERY renamer the transliterated walk-down/walk-up loop returns a graph that keeps the "
+              "requested keys and in which every common key computes the same value; GraphNode.fuse on a chain: taskFuse_chain); "
+              "the names of fused tasks (fused_names_differ_on_top_key, renamer_collision_iff with the constants re-extracted from "
+              "the source, renamer_length_le). PROVED CHECKERS applied to every real output of the run (translation validation): "
+              "fuseOK_sound (inline, inline_functions, fuse_linear, fuse without renaming), fuseOKR_sound (rename_keys=True/custom: "
+              "alias insertion, renamed references, deleted old keys), fuse_spec_preserves_eval (real fuse_linear_task_spec and "
+              "GraphNode.fuse outputs). PARTIAL: that the legacy fuse/fuse_linear/inline/inline_functions always produce outputs "
+              "the checkers accept is validated per run, not proved; the loop fuel of the resolve_aliases model is validated (the "
+              "model never answers 'fuel'); fuse_linear_task_spec is proved about its transliteration, which is "
+              "diffed against the real function on every case (incl. cyclic-free exhaustive DAG shapes up to 4 nodes).")
 LEVEL_NOTE = ("Trusted: Lean kernel + standard axioms; hand transliterations tied by function-level diffs (legacy cull keys + "
               "dependency map, subs, get_dependencies; task-spec cull, substitute, resolve_aliases, fuse_linear_task_spec, "
               "GraphNode.fuse incl. its ValueError, default_fused_keys_renamer with key_split taken from the real code and the md5 "
               "digest recomputed by the harness); every real optimiser output is evaluated with dask.core.get; the model's evaluator "
-              "of fused graphs (evalKeyF) is diffed against the real execution of _execute_subgraph tasks. Fixed in /repo: "
-              "fuse(ave_width=inf) OverflowError; fuse_linear_task_spec with unrenamable (int) keys stored the fused task under None; "
-              "key_split(()) IndexError in fuse renaming; fuse_linear_task_spec overwrote a task when the renamed key was already "
+              "of fused graphs (evalKeyF) is diffed against the real execution of _execute_subgraph tasks. No known finding is "
+              "left. Fixed in /repo: fuse(ave_width=inf) OverflowError; fuse_linear_task_spec with unrenamable keys stored the "
+              "fused task under None; key_split(()) IndexError; fuse_linear_task_spec overwrote a task when the renamed key was "
               "taken (11f7d6c); substitute/fuse ignored a falsy new key (7e731f4); Alias.substitute ignored key= for an identity "
-              "entry (3dbafa6).")
+              "entry (3dbafa6); dict values were dependencies but not substituted/evaluated (ca6daad, 7bc9664); non-task tuples "
+              "were evaluated elementwise by the conversion but invisible to cull/subs/fuse (83e63e1).")
 TECHNIQUE = ("Lean 4 proof (substitution lemmas, reachability closure, least-fixpoint evaluation with a transfer lemma, counting "
              "invariant) + proved checkers on real optimiser outputs + differential correspondence")
 ASSUMPTIONS = ["user functions are pure and total and left uninterpreted",
